@@ -3292,6 +3292,11 @@ class BatchDataset(Dataset):
                 if item < 0:
                     raise IndexError(item - len(self))
             input_index = item * self.batch_size
+            if self.drop_last and \
+                    input_index + self.batch_size > len(self.input_dataset):
+                # The short batch at the end is dropped: do not load its
+                # examples.
+                raise IndexError(item)
             current_batch = []
             for i in range(self.batch_size):
                 try:
